@@ -1,0 +1,14 @@
+//go:build verif
+
+package commitlog
+
+// crashHook, when set (by the verification harness), is called at every crash
+// point with the point's name. The harness snapshots the log directory there:
+// the snapshot is what a process killed at this instant would leave behind.
+var crashHook func(name string)
+
+func crashPoint(name string) {
+	if h := crashHook; h != nil {
+		h(name)
+	}
+}
